@@ -735,7 +735,7 @@ func c19Prosumer(t *tr.Writer, c c19Case) {
 				}
 				t.Emit(tr.Rec{"ev": "subE", "id": "a", "topic": "u", "ok": ok})
 				// the greeting was accepted inside Subscribe: its callback comes (or never does)
-				for w := 0; w < 400 && atomic.LoadInt64(&seenU) < int64(i+1); w++ {
+				for w := 0; w < 2500 && atomic.LoadInt64(&seenU) < int64(i+1); w++ {
 					time.Sleep(time.Millisecond)
 				}
 				t.Emit(tr.Rec{"ev": "settled", "id": "a", "topic": "u"})
